@@ -581,7 +581,12 @@ def replay(data: dict[str, Any]) -> int:
     try:
         recs = impl.records(case["mapping"], case["docs"])
         evs = impl.events(case["mapping"], case["docs"], case["per_line"], 0, case.get("tail", ""))
+        # per-line files are written with non-ASCII characters escaped (even k) and raw (odd k): replay both
+        evs_raw = impl.events(case["mapping"], case["docs"], case["per_line"], 1, case.get("tail", ""))
         rc = 0
+        if evs_raw != evs:
+            print("events differ with the file written raw / escaped:", evs_raw, "\nvs:", evs)
+            rc = 1
         if isinstance(recs, list):
             for d, got in zip(case["docs"], recs):
                 want = ref_extract(case["mapping"], d)
